@@ -133,18 +133,37 @@ def check_codes(ctx):
 KINDS = ("beacon", "shb", "gbc", "gac", "guc")
 
 
-def check_hops(ctx, defaults, hop_values, lifetimes):
-    """real Router with a capturing link layer; every emitted packet's RHL / MHL / LT octets."""
+class PassThroughSigner:
+    """stands in for the SignService when only the Basic Header of a secured packet is examined: the 'secured message' is
+    the to-be-signed message itself, so the Common Header stays at its usual offset behind the Basic Header"""
+
+    def _confirm(self, request):
+        from flexstack.security.sn_sap import SNSIGNConfirm
+        return SNSIGNConfirm(sec_message_length=len(request.tbs_message), sec_message=request.tbs_message)
+    sign_request = sign_cam = sign_denm = _confirm
+
+
+def check_hops(ctx, defaults, hop_values, lifetimes, secured=False):
+    """real Router with a capturing link layer; every emitted packet's RHL / MHL / LT octets.
+    secured: itsGnSecurity ENABLED with a pass-through signer - the packet leaves through the secured branch of the router
+    (Basic Header rebuilt with NH = secured packet); lifetime and hop limit must be the same as without security"""
     from flexstack.geonet.service_access_point import (GNDataRequest, PacketTransportType, HeaderType,
                                                        TopoBroadcastHST, GeoBroadcastHST, GeoAnycastHST,
                                                        Area, CommonNH, TrafficClass)
     reqs, expect_inputs = [], []
     for dflt in defaults:
         ll = CaptureLL()
-        router = make_router(ll, local_mid=0x0A0B0C0D0E01, default_hop_limit=dflt, ego=(413800000, 21100000))
+        if secured:
+            from flexstack.geonet.mib import GnSecurity
+            from flexstack.security.security_profiles import SecurityProfile
+            router = make_router(ll, local_mid=0x0A0B0C0D0E01, default_hop_limit=dflt, ego=(413800000, 21100000),
+                                 mib_kw={"itsGnSecurity": GnSecurity.ENABLED}, sign_service=PassThroughSigner())
+        else:
+            router = make_router(ll, local_mid=0x0A0B0C0D0E01, default_hop_limit=dflt, ego=(413800000, 21100000))
         peer = gn_addr(0x0A0B0C0D0E02)
-        router.gn_data_indicate(beacon_bytes(peer, tst=router_now_ms(), lat=413800100, lon=21100100))
-        for kind in KINDS:
+        if not secured:
+            router.gn_data_indicate(beacon_bytes(peer, tst=router_now_ms(), lat=413800100, lon=21100100))
+        for kind in (("shb", "shb_cam", "shb_vam", "gbc_denm", "gac_denm") if secured else KINDS):
             for h in hop_values:
                 for life in lifetimes:
                     ll.sent.clear()
@@ -153,11 +172,17 @@ def check_hops(ctx, defaults, hop_values, lifetimes):
                             continue
                         router.gn_data_request_beacon()
                     else:
-                        if kind == "shb":
+                        extra = {}
+                        if secured:
+                            extra = {"security_profile": {"shb": SecurityProfile.NO_SECURITY,
+                                                          "shb_cam": SecurityProfile.COOPERATIVE_AWARENESS_MESSAGE,
+                                                          "shb_vam": SecurityProfile.VRU_AWARENESS_MESSAGE}.get(
+                                kind, SecurityProfile.DECENTRALIZED_ENVIRONMENTAL_NOTIFICATION_MESSAGE), "its_aid": 36}
+                        if kind.startswith("shb"):
                             ptt = PacketTransportType(HeaderType.TSB, TopoBroadcastHST.SINGLE_HOP)
-                        elif kind == "gbc":
+                        elif kind.startswith("gbc"):
                             ptt = PacketTransportType(HeaderType.GEOBROADCAST, GeoBroadcastHST.GEOBROADCAST_CIRCLE)
-                        elif kind == "gac":
+                        elif kind.startswith("gac"):
                             ptt = PacketTransportType(HeaderType.GEOANYCAST, GeoAnycastHST.GEOANYCAST_CIRCLE)
                         else:
                             ptt = PacketTransportType(HeaderType.GEOUNICAST)
@@ -166,17 +191,20 @@ def check_hops(ctx, defaults, hop_values, lifetimes):
                             traffic_class=TrafficClass(), length=3, data=b"abc",
                             area=Area(latitude=413800000, longitude=21100000, a=100, b=100, angle=0),
                             max_hop_limit=h, max_packet_lifetime=(None if life is None else life / 1000),
-                            destination=peer if kind == "guc" else None)
+                            destination=peer if kind == "guc" else None, **extra)
                         router.gn_data_request(req)
-                    ctx.count(1, "src_" + kind)
-                    inp = {"op": "originate", "kind": kind, "max_hop_limit": h, "mib_default_hop_limit": dflt,
+                    ctx.count(1, ("sec_" if secured else "src_") + kind)
+                    inp = {"op": "originate", "secured": secured, "kind": kind, "max_hop_limit": h, "mib_default_hop_limit": dflt,
                            "max_packet_lifetime_ms": life}
                     if len(ll.sent) != 1:
                         ctx.property_failure("src_no_packet", inp, f"{len(ll.sent)} packets emitted for one request")
                         continue
                     pkt = ll.sent[0]
                     rhl, mhl, ltc = pkt[3], pkt[10], pkt[2]
-                    if kind in ("beacon", "shb"):
+                    if secured and pkt[0] & 0x0F != 2:
+                        ctx.property_failure("src_not_secured", inp, "packet of a security-enabled station left without the "
+                                             "secured next-header", 2, pkt[0] & 0x0F)
+                    if kind == "beacon" or kind.startswith("shb"):
                         want = (1, 1)
                     else:
                         x = h if h > 1 else dflt
@@ -190,7 +218,7 @@ def check_hops(ctx, defaults, hop_values, lifetimes):
                         ctx.property_failure(classify(want_ms), inp, "lifetime octet of the originated packet is not "
                                              "the largest representable value not exceeding the request",
                                              spec_best(want_ms), val)
-                    reqs.append((3, [{"beacon": 0, "shb": 1}.get(kind, 2), h, dflt]))
+                    reqs.append((3, [0 if kind == "beacon" else 1 if kind.startswith("shb") else 2, h, dflt]))
                     expect_inputs.append((inp, [rhl, mhl]))
                     ctx.nontriv(("hops", kind, h, dflt, life))
     if ctx.model.available:
@@ -320,6 +348,7 @@ def run(ctx):
         check_lt_values(ctx, rnd[:10_000], True)
         check_hops(ctx, (10, 1, 2, 255), list(range(0, 256, 1)), (None,))
         check_hops(ctx, (10,), (0, 1, 2, 10, 255), (0, 49, 50, 999, 1000, 1050, 15000, 600000, 999999))
+        check_hops(ctx, (10, 3), (0, 1, 2, 10, 255), (None, 50, 999, 1000, 3200, 15000, 64000, 600000), secured=True)
         check_rx_hops(ctx, [(r, m) for r in (0, 1, 2, 9, 10, 11, 128, 254, 255) for m in (0, 1, 2, 10, 11, 255)])
         check_rx_hops_all_types(ctx, [(2, 1), (1, 1), (1, 0), (255, 254), (10, 10), (3, 10), (11, 10)])
         ctx.exhaustive = False
@@ -327,6 +356,8 @@ def run(ctx):
         check_lt_range(ctx, 0, 7_000_001, False)
         check_lt_range(ctx, 0, 7_000_001, True)
         check_hops(ctx, (10, 1, 2, 3, 255), list(range(256)), (None, 50, 1000))
+        check_hops(ctx, (10, 1, 3, 255), list(range(0, 256, 3)) + [1, 2, 255],
+                   (None, 49, 50, 999, 1000, 3150, 3200, 3999, 15000, 64000, 99999, 600000, 999999), secured=True)
         check_rx_hops(ctx, [(r, m) for r in range(0, 256, 5) for m in range(0, 256, 5)] +
                       [(r, r + d) for r in range(256) for d in (-1, 0, 1) if 0 <= r + d < 256])
         check_rx_hops_all_types(ctx, [(r, r + d) for r in (0, 1, 2, 5, 10, 128, 254, 255) for d in (-1, 0, 1) if 0 <= r + d < 256])
@@ -344,7 +375,8 @@ def replay(ctx, data):
     elif inp.get("op") == "decode_code":
         check_codes(ctx)
     elif inp.get("op") == "originate":
-        check_hops(ctx, (inp["mib_default_hop_limit"],), (inp["max_hop_limit"],), (inp["max_packet_lifetime_ms"],))
+        check_hops(ctx, (inp["mib_default_hop_limit"],), (inp["max_hop_limit"],), (inp["max_packet_lifetime_ms"],),
+                   secured=bool(inp.get("secured")))
     elif inp.get("op") == "receive_shb":
         check_rx_hops(ctx, [(inp["rhl"], inp["mhl"])])
     bad = ctx.failures or ctx.mismatches or ctx.known_hits
